@@ -618,8 +618,11 @@ func (s *MemoryStore) Dequeue(req DequeueRequest) (DequeueResponse, error) {
 			now = s.nowFn()
 		}
 
-		s.requeueExpiredLeasesLocked(now)
+		// Prune before releasing expired leases, as the SQLite store does: a
+		// message whose lease just expired is offered once more before retention
+		// can remove it.
 		s.maybePruneLocked(now)
+		s.requeueExpiredLeasesLocked(now)
 
 		var out []Envelope
 		for i, env := range s.order {
